@@ -390,3 +390,59 @@ def owner_closure(run, owners) -> Set[str]:
                 closure.add(f.qualname)
                 changed = True
     return closure
+
+
+def cond_assigns(root: ast.AST):
+    """Two-armed selections of one target's value, in the normal form of sa/normal.py (statement-level conditional expressions are lowered to
+    `if c: t = A / else: t = B`, tests oriented positively):  yields (if_stmt, target_text, test, value_if_true, value_if_false) for every `if`
+    under `root` whose two arms are single assignments to the same target.  Conditional *expressions* that remain (nested in a larger
+    expression) are yielded with if_stmt = the IfExp node and target_text None."""
+    for n in ast.walk(root):
+        if isinstance(n, ast.If) and len(n.body) == 1 and len(n.orelse) == 1 and isinstance(n.body[0], ast.Assign) and isinstance(n.orelse[0], ast.Assign) \
+                and len(n.body[0].targets) == 1 and len(n.orelse[0].targets) == 1 and norm(n.body[0].targets[0]) == norm(n.orelse[0].targets[0]):
+            yield n, norm(n.body[0].targets[0]), n.test, n.body[0].value, n.orelse[0].value
+        elif isinstance(n, ast.IfExp):
+            yield n, None, n.test, n.body, n.orelse
+
+
+def cond_returns(root: ast.AST):
+    """`if c: return A / else: return B` (the normal form of `return A if c else B`): yields (if_stmt, test, value_if_true, value_if_false)"""
+    for n in ast.walk(root):
+        if isinstance(n, ast.If) and len(n.body) == 1 and len(n.orelse) == 1 and isinstance(n.body[0], ast.Return) and isinstance(n.orelse[0], ast.Return):
+            yield n, n.test, n.body[0].value, n.orelse[0].value
+
+
+def is_none_transfer_arm(st: ast.AST) -> bool:
+    """`st` is the None arm of a *transfer*  `if <src> is None: t = None / else: t = f(<src>)`  (the normal form of
+    `t = f(src) if src is not None else None`): the store passes on that the source holds nothing; it does not discard anything."""
+    par = getattr(st, "_parent", None)
+    if not (isinstance(par, ast.If) and len(par.body) == 1 and len(par.orelse) == 1 and isinstance(st, ast.Assign) and len(st.targets) == 1):
+        return False
+    other = par.orelse[0] if par.body[0] is st else par.body[0]
+    if not (isinstance(other, ast.Assign) and len(other.targets) == 1 and norm(other.targets[0]) == norm(st.targets[0])):
+        return False
+    t = par.test
+    if not (isinstance(t, ast.Compare) and len(t.ops) == 1 and isinstance(t.ops[0], (ast.Is, ast.IsNot)) and isinstance(t.comparators[0], ast.Constant)
+            and t.comparators[0].value is None):
+        return False
+    none_arm = par.body[0] if isinstance(t.ops[0], ast.Is) else par.orelse[0]
+    if none_arm is not st or not (isinstance(st.value, ast.Constant) and st.value.value is None):
+        return False
+    src = norm(t.left)
+    return any(norm(x) == src for x in ast.walk(other.value))
+
+
+_META_ATTRS = {"dtype", "shape", "strides", "ndim", "size", "flags", "itemsize", "nbytes"}
+
+
+def value_uses(e: ast.AST, name: str) -> int:
+    """number of reads of local `name` in `e` that can carry its *contents* (reads of array metadata -- x.dtype, x.shape, x.strides ... -- do not)"""
+    n = 0
+    meta = set()
+    for x in ast.walk(e):
+        if isinstance(x, ast.Attribute) and x.attr in _META_ATTRS and isinstance(x.value, ast.Name):
+            meta.add(id(x.value))
+    for x in ast.walk(e):
+        if isinstance(x, ast.Name) and x.id == name and isinstance(x.ctx, ast.Load) and id(x) not in meta:
+            n += 1
+    return n
